@@ -32,7 +32,16 @@ impl<T> Sender<T> {
     #[track_caller]
     pub fn send(&self, msg: T) -> Result<(), std::sync::mpsc::SendError<T>> {
         self.object.send(location!());
-        self.sender.send(msg)
+
+        let res = self.sender.send(msg);
+
+        if res.is_err() {
+            // The receiver is gone and the message is handed back to the
+            // caller, it is not in the channel.
+            self.object.send_failed();
+        }
+
+        res
     }
 }
 
